@@ -1,6 +1,6 @@
 import AlgoVerif.Proofs.C06BinarySim
 import AlgoVerif.Proofs.C06Patricia
-import AlgoVerif.Proofs.C06PNul
+import AlgoVerif.Proofs.C06PSim
 /-!
 # C06 — tries are ordered string maps with prefix and pattern queries
 
@@ -9,7 +9,7 @@ Only the property theorems live here; the helper lemmas are in `Proofs/C06*.lean
 * `Spec.Map` (`Spec/C06.lean`): an association list strictly sorted by `klt`, the ordered-map queries
   and `withPrefix` / `longestPrefixOf` / `match` as plain `filter` / `find?` / `head?` / `getLast?`.
 * `Binary`, `Patricia` (`Model/C06.lean`): transcriptions of `trie/binary.go` and `trie/patricia.go`
-  (+ `bitstring.go`, `bitpattern.go`) after the `fix:` commits for D6, D7, D8, D9a–d.
+  (+ `bitstring.go`, `bitpattern.go`) after the `fix:` commits for D6, D7, D8, D9a–e.
 * `Binary.run` / `Patricia.run` / `Spec.Map.run` (`Model/C06Run.lean`): a history is a list of `Op`;
   queries are operations, so "every query argument" is covered by "every history".
 -/
@@ -60,18 +60,25 @@ example : Binary.run (Binary.new : Binary Int)
 
 /-! ## Patricia trie -/
 
-/-- `bitString.Bit`: position 0 panics (negative shift), position `i + 1` is bit `i` of the zero-padded
-bit sequence. -/
+/-- `bitString.Bit`: position 0 panics (negative shift; never asked for), position `i + 1` is bit `i` of the
+sequence `xbit`: the zero-padded bits of the string below `lenPos`, one "has at least i bytes" bit per byte above. -/
 theorem C06_bitstring_bit (b : BitString) :
-    BitString.bit b 0 = .panic ∧ ∀ i, BitString.bit b (i + 1) = .ok (kbit b i) :=
+    BitString.bit b 0 = .panic ∧ ∀ i, BitString.bit b (i + 1) = .ok (BitString.xbit b i) :=
   ⟨BitString.bit_zero b, BitString.bit_succ b⟩
 
-/-- `bitString.DiffPos`: 0 exactly when the zero-padded bit sequences coincide (the case the Patricia
-trie cannot represent), otherwise the 1-based position of the first differing bit. -/
+/-- `bitString.DiffPos` (after the D9e fix): 0 exactly for equal strings; otherwise — for strings shorter than
+`lenPos` bits — the 1-based position of the first bit of that sequence at which they differ. -/
 theorem C06_bitstring_diffPos (b c : BitString) :
-    (BitString.diffPos b c = 0 ↔ ∀ j, kbit b j = kbit c j) ∧
-    (∀ p, BitString.diffPos b c = p + 1 → kbit b p ≠ kbit c p ∧ ∀ j, j < p → kbit b j = kbit c j) :=
-  ⟨BitString.diffPos_eq_zero_iff b c, BitString.diffPos_succ b c⟩
+    (BitString.diffPos b c = 0 ↔ b = c) ∧
+    (BitString.Small b → BitString.Small c → ∀ p, BitString.diffPos b c = p + 1 →
+      BitString.xbit b p ≠ BitString.xbit c p ∧ ∀ j, j < p → BitString.xbit b j = BitString.xbit c j) :=
+  ⟨BitString.diffPos_eq_zero_iff b c, fun hb hc => BitString.diffPos_succ b c hb hc⟩
+
+/-- the order of first differing positions (bits before lengths) is the lexicographic order on byte strings. -/
+theorem C06_bitstring_order {a b : Key} {d : Nat} (ha : BitString.Small a) (hb : BitString.Small b)
+    (h0 : BitString.xbit a d = false) (h1 : BitString.xbit b d = true)
+    (hj : ∀ j, j < d → BitString.xbit a j = BitString.xbit b j) : klt a b = true :=
+  klt_of_xbits ha hb h0 h1 hj
 
 /-- `bitString.Equal` is equality of the byte strings; `b.HasPrefix(c)` says the zero-padded `b` agrees
 with `c` on the `len(c)` bits of `c`. -/
@@ -90,51 +97,35 @@ theorem C06_patricia_search_total {V : Type} (t : Patricia V) (hc : Patricia.Clo
 example : Patricia.Closed (Patricia.new : Patricia Int) := Patricia.Closed.new
 
 /-- **C06, Patricia trie, partial.**  For every history of Put, Get, DeleteAll and the ordered-map queries
-(Size, Min, Max, Floor, Ceiling, Select, Rank, Range, RangeSize, All) in which no Put meets a different held key
-with the same zero-padded bit string (`PatriciaHistory`, see `Model/C06Run.lean`), over any value type,
-the Patricia trie never panics, never runs out of fuel, and every operation returns exactly what the sorted
-map returns.
+(Size, Min, Max, Floor, Ceiling, Select, Rank, Range, RangeSize, All) whose stored keys are shorter than
+`lenPos = 2^30` bits (`PatriciaHistory`, see `Model/C06Run.lean`), over any value type — empty keys, keys
+containing or ending in 0x00 included — the Patricia trie never panics, never runs out of fuel, and every
+operation returns exactly what the sorted map returns.
 
 Full statement (not proved; the missing operations are tied to the code by the per-run correspondence and
 oracle checks only):
 ```
-theorem C06_patricia (ops : List (Op V)) (h : no Put in `ops` meets a held key equal to it up to trailing 0x00) :
+theorem C06_patricia (ops : List (Op V)) (h : every stored key is shorter than 2^30 bits) :
     Patricia.run Patricia.new ops = (Spec.Map.run [] ops).map Outcome.ok
 ```
 Missing: Delete / DeleteMin / DeleteMax (`remove`'s relinking of the cyclic store: the unfolding `Rep` of
 `Proofs/C06PRep.lean` has to be re-established after up to four link updates and a node taking over another
 node's bit position) and the three string queries WithPrefix / LongestPrefixOf / Match on the Patricia trie. -/
-theorem C06_patricia_partial {V : Type} (ops : List (Op V)) (h : PatriciaHistory ([] : Spec.Map V) ops = true) :
+theorem C06_patricia_partial {V : Type} (ops : List (Op V)) (h : PatriciaHistory ops = true) :
     Patricia.run (Patricia.new : Patricia V) ops = (Spec.Map.run ([] : Spec.Map V) ops).map Outcome.ok :=
   Patricia.run_sim Patricia.PInv.new ops h
 
-/-- The hypothesis of `C06_patricia_partial` holds in particular when no stored key ends in a 0x00 byte. -/
-theorem C06_patricia_partial_no_trailing_nul {V : Type} (ops : List (Op V))
-    (hs : ∀ op ∈ ops, op.patriciaScope = true)
-    (hk : ∀ op ∈ ops, ∀ k v, op = .put k v → k.getLast? ≠ some 0) :
-    Patricia.run (Patricia.new : Patricia V) ops = (Spec.Map.run ([] : Spec.Map V) ops).map Outcome.ok :=
-  C06_patricia_partial ops (patriciaHistory_of_noTrail ops [] (by simp) hs hk)
-
-/-- non-vacuity: a history with keys that are prefixes / extensions of each other, a key containing and one
-ending in 0x00 (not clashing), an update, and queries; it satisfies `PatriciaHistory`. -/
-example : PatriciaHistory ([] : Spec.Map Int)
-    [.put [97, 98] 1, .put [97] 2, .put [97, 0, 98] 3, .put [98, 0] 4, .put [97] 5, .get [97], .rank [97, 97], .floor [97, 99],
-     .ceiling [97, 0], .select 2, .range [97] [98], .min, .max, .all, .size] = true := by
+/-- non-vacuity: keys that are prefixes / extensions of each other, the empty key, keys that differ by trailing
+0x00 bytes only (D9e: `a`, `a\0`, `a\0\0`), an update, and queries. -/
+example : PatriciaHistory
+    ([.put [97, 98] 1, .put [97] 2, .put [97, 0] 3, .put [97, 0, 0] 4, .put [] 6, .put [97] 5, .get [97, 0], .rank [97, 0, 0],
+     .floor [97, 1], .ceiling [97, 0], .select 2, .range [97] [98], .min, .max, .all, .size] : List (Op Int)) = true := by
   decide
 
 example : Patricia.run (Patricia.new : Patricia Int)
-    [.put [97, 98] 1, .put [97] 2, .put [97, 0, 98] 3, .put [98, 0] 4, .put [97] 5, .get [97], .rank [97, 97], .floor [97, 99],
-     .ceiling [97, 0], .select 2, .range [97] [98], .min, .max, .all, .size]
-    = [.ok .unit, .ok .unit, .ok .unit, .ok .unit, .ok .unit, .ok (.val (some 5)), .ok (.int 2), .ok (.kv (some ([97, 98], 1))),
-       .ok (.kv (some ([97, 0, 98], 3))), .ok (.kv (some ([97, 98], 1))), .ok (.list [([97], 5), ([97, 0, 98], 3), ([97, 98], 1)]),
-       .ok (.kv (some ([97], 5))), .ok (.kv (some ([98, 0], 4))),
-       .ok (.list [([97], 5), ([97, 0, 98], 3), ([97, 98], 1), ([98, 0], 4)]), .ok (.int 4)] := by
-  decide
-
-/-- D9e (known finding, `known-findings.json`): the Patricia trie's keys are zero-padded bit strings,
-so after `Put "a"`, `Put "a\x00"` finds `DiffPos = 0` and panics in `Bit(0)`; the Spec (and the binary
-trie) store both keys. -/
-theorem C06_patricia_trailing_nul_counterexample :
-    Patricia.run (Patricia.new : Patricia Int) [.put [0x61] 1, .put [0x61, 0x00] 2] = [.ok .unit, .panic] ∧
-    Spec.Map.run ([] : Spec.Map Int) [.put [0x61] 1, .put [0x61, 0x00] 2] = [.unit, .unit] := by
+    [.put [97, 98] 1, .put [97] 2, .put [97, 0] 3, .put [97, 0, 0] 4, .put [] 6, .put [97] 5, .get [97, 0], .rank [97, 0, 0],
+     .floor [97, 1], .ceiling [97, 0], .select 2, .range [97] [98], .min, .max, .all, .size]
+    = (Spec.Map.run ([] : Spec.Map Int)
+    [.put [97, 98] 1, .put [97] 2, .put [97, 0] 3, .put [97, 0, 0] 4, .put [] 6, .put [97] 5, .get [97, 0], .rank [97, 0, 0],
+     .floor [97, 1], .ceiling [97, 0], .select 2, .range [97] [98], .min, .max, .all, .size]).map Outcome.ok := by
   decide
